@@ -167,9 +167,31 @@ def local_task(p, cfg, rec):
 def designs_b(tier='quick'):
     d = dict(D.DESIGNS)
     d['two-domains'] = lambda s: two_dom(s)
+    d['gate toggled by a base-domain register'] = self_gated
     for k in range(6 if tier == 'quick' else 60):
         d['random#%d' % k] = D.random_design(k)
     return d
+
+
+def self_gated(s):
+    """a gated domain whose enable is a register of the base domain that toggles every cycle, so the gate
+    changes in the middle of a multi-cycle clk(n) call"""
+    from py4hw.logic.bitwise import Not
+    from py4hw.logic.storage import Reg
+    a = s.wire('a', 3)
+    tq, tn = s.wire('tq', 1), s.wire('tn', 1)
+    Not(s, 'tn', tq, tn)
+    Reg(s, 'tog', tn, tq)
+    q0, o = s.wire('q0', 3), s.wire('o', 3)
+    Reg(s, 'r0', a, q0)
+
+    def body(b):
+        m = b.wire('m', 3)
+        Reg(b, 'g0', q0, m)
+        Reg(b, 'g1', m, o)
+    box = D.Box(s, 'box', {'q0': q0, 'en': tq}, {'o': o}, body)
+    box.clockDriver = py4hw.ClockDriver('gck', base=s.clockDriver, enable=tq)
+    return {'ins': {'a': a}}
 
 
 def two_dom(s):
